@@ -153,6 +153,7 @@ func runC15(c *Ctx, idx int) {
 		panic("harness: " + err.Error())
 	}
 	ms := snapGenome(mg)
+	modularVariants(r, ms)
 	for i := range ms.Modules {
 		ms.Modules[i].En = r.Intn(3) != 0
 		ms.Modules[i].Mut = fbits(fuzzFloat(r))
